@@ -129,18 +129,19 @@ def reachN : Nat → List Sym → List Sym
 
 /-- The tokens of a clause's subject part go to the subject hook, those of its predicate part to the
     predicate hook, those of its object part to the object hook, and to no other; clauses are opened and
-    closed by the next-clause hook, the pattern by the init hook; every alternative of a symbol carries the
-    same hooks. -/
+    closed by the next-clause hook, the pattern by the init hook; the tokens of the ORDER BY list go to the order
+    hook and the list is closed by its checker; every alternative of a symbol carries the same hooks. -/
 theorem routing_wf :
     hooksUniform = true ∧
     (reachN 6 [.SUBJECT_EXTRACT]).all (fun s => partOf s == .subj) = true ∧
     (reachN 6 [.PREDICATE]).all (fun s => partOf s == .pred) = true ∧
     (reachN 6 [.OBJECT]).all (fun s => partOf s == .obj) = true ∧
+    (reachN 6 [.ORDER_BY]).all (fun s => partOf s == .order) = true ∧
     [Sym.FIRST_CLAUSE, .CLAUSES, .OPTIONAL_CLAUSE].all (fun s => partOf s == .subj) = true ∧
-    allSyms.all (fun s => partOf s == .none || (reachN 6 [.SUBJECT_EXTRACT, .PREDICATE, .OBJECT, .FIRST_CLAUSE, .CLAUSES, .OPTIONAL_CLAUSE]).contains s) = true ∧
+    allSyms.all (fun s => partOf s == .none || (reachN 6 [.SUBJECT_EXTRACT, .PREDICATE, .OBJECT, .FIRST_CLAUSE, .CLAUSES, .OPTIONAL_CLAUSE, .ORDER_BY]).contains s) = true ∧
     [Sym.FIRST_CLAUSE, .CLAUSES, .MORE_CLAUSES].all (fun s => startHook s == .next && endHook s == .next) = true ∧
-    startHook .WHERE = .init ∧
-    allSyms.all (fun s => (startHook s == .none && endHook s == .none) || [Sym.FIRST_CLAUSE, .CLAUSES, .MORE_CLAUSES, .WHERE].contains s) = true := by
+    startHook .WHERE = .init ∧ endHook .ORDER_BY = .orderCheck ∧
+    allSyms.all (fun s => (startHook s == .none && endHook s == .none) || [Sym.FIRST_CLAUSE, .CLAUSES, .MORE_CLAUSES, .WHERE, .ORDER_BY].contains s) = true := by
   decide +kernel
 
 /-! Non-vacuity: a real statement is greedily derivable and accepted. -/
